@@ -210,6 +210,12 @@ class Ctx:
                     problems.append(f"{t} depends on non-allowed axioms {bad}")
                 else:
                     discharged += 1
+        # thorough tier: independent re-check of the compiled theorems with leanchecker
+        if self.tier == "thorough" and props_file.exists() and not problems:
+            rc, out = sh(["lake", "env", "leanchecker", f"Infretis.Props.{self.prop}"], cwd=LEAN, timeout=3000)
+            self.extra["leanchecker"] = {"rc": rc, "tail": out[-300:]}
+            if rc != 0:
+                problems.append(f"leanchecker rejected Infretis.Props.{self.prop}: {out[-400:]}")
         self.proof = {
             "obligations": len(thms) + n_examples,
             "discharged": discharged + (n_examples if not problems or discharged == len(thms) else 0),
